@@ -36,6 +36,52 @@ def _has_sym(obj):
     return False
 
 
+def _inty(dtype):
+    try:
+        return dtype is not None and dtype is not object and np.issubdtype(np.dtype(dtype), np.integer)
+    except TypeError:
+        return False
+
+
+def _trunc_any(v):
+    """numpy's float -> integer cast on assignment: truncation toward zero, element-wise"""
+    if isinstance(v, np.ndarray):
+        if v.dtype != object and not np.issubdtype(v.dtype, np.floating):
+            return v
+        out = np.empty(v.shape, dtype=object)
+        for idx in np.ndindex(v.shape):
+            out[idx] = _trunc_any(v[idx])
+        return out
+    if isinstance(v, (list, tuple)):
+        return [_trunc_any(e) for e in v]
+    if is_sym(v):
+        return core.trunc_to_int(v)
+    if isinstance(v, float):
+        return int(v)
+    return v
+
+
+class IntObjArray(np.ndarray):
+    """object array standing for an integer-typed numpy array during a symbolic run (np.zeros_like(int_array), ...):
+    stores are cast like numpy casts a float to an integer element (truncation toward zero); arithmetic gives plain arrays"""
+
+    def __setitem__(self, key, value):
+        np.ndarray.__setitem__(self, key, _trunc_any(value))
+
+    def __array_ufunc__(self, ufunc, method, *inputs, **kwargs):
+        plain = lambda a: a.view(np.ndarray) if isinstance(a, IntObjArray) else a
+        inputs = tuple(plain(a) for a in inputs)
+        if 'out' in kwargs:
+            kwargs['out'] = tuple(plain(a) for a in kwargs['out'])
+        return getattr(ufunc, method)(*inputs, **kwargs)
+
+
+def _int_obj(shape, fill):
+    a = np.empty(shape, dtype=object)
+    a.fill(fill)
+    return a.view(IntObjArray)
+
+
 class ObjMatrix:
     """np.matrix over object dtype (numpy's own matrix class mishandles flatten/asarray for object entries)"""
     def __init__(self, a):
@@ -105,9 +151,30 @@ class NumpyShim:
         return np.full(shape, fill_value, dtype=dtype)
 
     def zeros_like(self, a, dtype=None):
+        if _symrun() and self._int_prototype(a, dtype):
+            return _int_obj(np.shape(a), 0)
         return self.zeros(np.shape(a), dtype or getattr(a, 'dtype', None) if not _symrun() else None)
 
+    @staticmethod
+    def _int_prototype(a, dtype):
+        """the new array takes an integer element type from its prototype (numpy *_like semantics)"""
+        if dtype is not None:
+            return _inty(dtype)
+        if isinstance(a, IntObjArray):
+            return True
+        if isinstance(a, np.ndarray):
+            return _inty(a.dtype)
+        if isinstance(a, (int, np.integer)) and not isinstance(a, bool):
+            return True
+        if isinstance(a, (list, tuple)) and a and not _has_sym(a):
+            return _inty(np.asarray(a).dtype)
+        return False
+
     def ones_like(self, a, dtype=None):
+        if _symrun() and self._int_prototype(a, dtype):
+            return _int_obj(np.shape(a), 1)
+        if not _symrun():
+            return np.ones_like(a, dtype=dtype)
         return self.ones(np.shape(a), None)
 
     def empty_like(self, a, dtype=None):
